@@ -17,7 +17,8 @@ from vlib.core import VERIF_DIR, HarnessError, Sub, req
 PROPERTY = "C09"
 RULE = ("generated CMAP sets with 4-12 queries of skewed cost (first query the longest), any output mode; each input run through "
         "the CLI with -c 1 unperturbed, then with -c in {1,2,16,drawn 3..15} x perturbation seeds (per-query delays of 0-40 ms in the "
-        "pool workers) and one plain repetition.  non-trivial = a run whose logged completion order differs from the submission "
+        "pool workers) and a drawn PYTHONHASHSEED per run; five in six of the inputs also carry a [P][M][P] molecule whose two second-pass "
+        "fragments score exactly alike.  non-trivial = a run whose logged completion order differs from the submission "
         "order; distinct = distinct (case, cpus, completion order)")
 ASSUMPTIONS = ["only the '# coma ...' header line (it echoes -c and the output path) is excluded from the comparison",
                "schedules reached are those the delays produce; not all interleavings of 16 workers"]
@@ -54,15 +55,20 @@ def check(case):
         submit = [q["id"] for q in case["queries"] if q["labels"]]
         cl = [f"mode={base.mode}"]
         nt = 0
-        for k, (cpus, pseed) in enumerate(case["schedules"], 1):
+        for k, sched in enumerate(case["schedules"], 1):
+            cpus, pseed = sched[0], sched[1]
             log = os.path.join(d, f"order{k}.log")
             env = {"VERIF_ORDER_LOG": log}
             if pseed:
                 env["VERIF_PERTURB"] = str(pseed)
+            if len(sched) > 2:
+                # "on every repetition": a user's runs do not share a string-hash seed
+                env["PYTHONHASHSEED"] = str(sched[2])
+                cl.append("hashseed-varied")
             r = pipeline.run_cli(case, cpus=cpus, launcher=LAUNCHER, env_extra=env, workdir=d, outname=f"o{k:02d}x")
             if r.returncode == 97:
                 raise HarnessError("launcher cannot find the per-query worker")
-            where = f"run with -c {cpus}, perturbation {pseed!r}"
+            where = f"run with -c {cpus}, perturbation {pseed!r}, PYTHONHASHSEED {env.get('PYTHONHASHSEED', '0')}"
             req(not r.crashed, "schedule-dependent-crash", f"{where}: exit {r.returncode}: {r.crash_text}")
             req(set(r.raw) == set(ref_files), "schedule-dependent-file-set", f"{where}: files {sorted(r.raw)} vs {sorted(ref_files)} with -c 1")
             for suf, t in r.raw.items():
@@ -95,11 +101,55 @@ def strategy(draw, nsched):
     big = {"id": 99999 + draw(st.integers(1, 50)), "labels": [gen_maps.r1(p) for p in lab], "length": gen_maps.r1(lab[-1] + 1),
            "truth": {"kind": "long-first"}}
     case["queries"] = [big] + [q for q in case["queries"] if q["id"] != big["id"]]
-    sched = [(1, 0), (2, draw(st.integers(1, 10 ** 6))), (16, draw(st.integers(1, 10 ** 6)))]
+    if draw(st.integers(0, 5)) > 0:
+        _add_flank_repeat(draw, case)
+    hs = st.integers(1, 4294967295)
+    sched = [(1, 0, draw(hs)), (2, draw(st.integers(1, 10 ** 6)), draw(hs)), (16, draw(st.integers(1, 10 ** 6)), draw(hs))]
     while len(sched) < nsched:
-        sched.append((draw(st.sampled_from([2, 3, 4, 5, 8, 11, 16])), draw(st.integers(1, 10 ** 6))))
+        sched.append((draw(st.sampled_from([2, 3, 4, 5, 8, 11, 16])), draw(st.integers(1, 10 ** 6)), draw(hs)))
     case["schedules"] = sched
     return case
+
+
+def _add_flank_repeat(draw, case):
+    """a reference [P] ... [M] and a query [P][M][P] on a 100 bp lattice: the first pass places M (the longer part), the
+    second pass gets a head and a tail fragment of the same molecule that both place P with exactly the same score, so
+    whatever orders the rows of one query by arrival becomes visible (added after seeded change C09-4 was missed)"""
+    def lattice(n, lo, hi):
+        return [100 * g for g in draw(st.lists(st.integers(lo, hi), min_size=n, max_size=n))]
+    kp, km = draw(st.integers(8, 12)), draw(st.integers(16, 26))
+    P = gen_maps._cum(0, lattice(kp - 1, 30, 150))
+    M = gen_maps._cum(0, lattice(km - 1, 30, 150))
+    g1, g2 = 100 * draw(st.integers(40, 160)), 100 * draw(st.integers(40, 160))
+    # the seeding correlation only considers placements where the whole molecule lies inside the reference: the tail
+    # fragment (which keeps the molecule's length) can only place its P on the reference's P if a molecule's length of
+    # reference lies in front of it
+    lead = gen_maps._cum(100 * draw(st.integers(0, 200)), lattice(draw(st.integers(2, 6)), 40, 200))
+    while lead[-1] < P[-1] + g1 + M[-1] + g2 + 5000:
+        lead.append(lead[-1] + 100 * draw(st.integers(100, 300)))
+    r = list(lead)
+    p0 = (r[-1] if r else 0) + 100 * draw(st.integers(40, 200))
+    r += [p0 + x for x in P]
+    spacer = gen_maps._cum(r[-1] + 100 * draw(st.integers(300, 900)), lattice(draw(st.integers(0, 4)), 200, 700))
+    r += spacer
+    m0 = r[-1] + 100 * draw(st.integers(300, 900))
+    r += [m0 + x for x in M]
+    # ... and at least a flank's worth of reference behind M
+    end_m = r[-1]
+    tail = gen_maps._cum(end_m + 100 * draw(st.integers(40, 200)), lattice(draw(st.integers(2, 6)), 40, 200))
+    while tail[-1] < end_m + g2 + P[-1] + 5000:
+        tail.append(tail[-1] + 100 * draw(st.integers(100, 300)))
+    r += tail
+    rid = max([x["id"] for x in case["refs"]] + [0]) + draw(st.integers(1, 3))
+    case["refs"].append({"id": rid, "length": float(r[-1] + 100 * draw(st.integers(0, 50))), "labels": [float(x) for x in r]})
+    q = list(P)
+    q += [q[-1] + g1 + x for x in M]
+    q += [q[-1] + g2 + x for x in P]
+    if draw(st.booleans()):
+        q = [q[-1] - x for x in q[::-1]]
+    qid = max([x["id"] for x in case["queries"]] + [0]) + draw(st.integers(1, 3))
+    case["queries"].insert(draw(st.integers(1, len(case["queries"]))),
+                           {"id": qid, "length": float(q[-1] + 1), "labels": [float(x) for x in q], "truth": {"kind": "flank-repeat"}})
 
 
 def sample_filter(case):
@@ -110,5 +160,5 @@ def sample_filter(case):
 def subchecks(tier):
     q = tier == "quick"
     n = 6 if q else 10
-    return [Sub("schedules", "hyp", check, strategy=lambda: strategy(n), examples=16 if q else 160, shrink_budget=4,
-                sample_filter=sample_filter, time_budget_s=3000, required_classes=("order-inverted", "cpus=16"))]
+    return [Sub("schedules", "hyp", check, strategy=lambda: strategy(n), examples=32 if q else 240, shrink_budget=4,
+                sample_filter=sample_filter, time_budget_s=3000, required_classes=("order-inverted", "cpus=16", "hashseed-varied"))]
